@@ -3,6 +3,10 @@ import Tw.Gen.Teehistorian
 import Tw.Proofs.TeehistParse
 import Tw.Proofs.TeehistRun
 import Tw.Proofs.TeehistInterp
+import Tw.Proofs.TeehistSem
+import Tw.Proofs.TeehistTicks
+import Tw.Proofs.TeehistSums
+import Tw.Model.TeehistorianSpec
 
 /-!
 # C17 — teehistorian reading is independent of stream fragmentation
@@ -12,7 +16,7 @@ Property theorems only; helper lemmas live in `Tw/Proofs/Teehist*.lean`.  The mo
 `teehist` correspondence domain and by the `tie_*` theorems over the regenerated tables below.
 -/
 namespace Tw.Props.C17
-open Tw.Teehistorian
+open Tw.Teehistorian Tw.Teehistorian.Spec
 
 /-! ### Ties to the source -/
 
@@ -74,7 +78,12 @@ theorem tie_read_assignments :
     Gen.Teehistorian.readAssigns.filter (·.1 == "prev_player_cid") =
       [("prev_player_cid", "None"), ("prev_player_cid", "None"), ("prev_player_cid", "Some(i.cid)"),
        ("prev_player_cid", "Some(i.cid)"), ("prev_player_cid", "Some(i.cid)")] ∧
-    Gen.Teehistorian.lits_read = [1, 1] ∧ Gen.Teehistorian.lits_empty = [0, 1] := by decide
+    Gen.Teehistorian.lits_read = [1, 1] ∧ Gen.Teehistorian.lits_empty = [0, 1] ∧
+    Gen.Teehistorian.lits_read_more = [0, 0, 0] ∧
+    Gen.Teehistorian.readAssigns.filter (·.1 == "tick") =
+      [("tick", "old_tick.checked_add(1).ok_or(format::Error::TickOverflow)?"),
+       ("tick", "self .tick .checked_add(1) .ok_or(format::Error::TickOverflow)? .checked_add(dt) .ok_or(format::Error::TickOverflow)?")] := by
+  decide
 
 /-! ### Prefix monotonicity of every item parser -/
 
@@ -134,5 +143,117 @@ example :
 example :
     run ⟨true, 1000⟩ 3 ([9, 9, 9] ++ [0x42, 2, 0, 0, 0x42, 3, 0, 0, 0x41, 0, 2, 1, 1, 0x40]) [0, 5, 0, 0, 2] =
       runWhole ⟨true, 1000⟩ [0x42, 2, 0, 0, 0x42, 3, 0, 0, 0x41, 0, 2, 1, 1, 0x40] := by decide +kernel
+
+/-! ### Totality -/
+
+/-- **Any byte stream yields items and then the end, an error, or — only for a client id the
+machine cannot allocate table slots for (finding D18) — resource exhaustion.**  The model has no
+panic outcome left (the arithmetic is checked or wrapping, `offset ≤ len` holds by construction);
+what this theorem adds is that none of the loops runs out of its fuel, for any schedule. -/
+theorem reader_total (cfg : Cfg) (hdr s : List UInt8) (ds : List Nat) :
+    (run cfg hdr.length (hdr ++ s) ds).final = .finished ∨
+    (∃ e, (run cfg hdr.length (hdr ++ s) ds).final = .err e) ∨
+    (run cfg hdr.length (hdr ++ s) ds).final = .oom := by
+  rw [run_eq_runWhole]
+  have := runWhole_final cfg s
+  cases h : (runWhole cfg s).final with
+  | finished => exact Or.inl rfl
+  | err e => exact Or.inr (Or.inl ⟨e, rfl⟩)
+  | oom => exact Or.inr (Or.inr rfl)
+  | outOfFuel => exact absurd h this
+
+/-- The full totality statement: items, then the end or an error — nothing else. -/
+def C17_full : Prop :=
+  ∀ (cfg : Cfg) (hdr s : List UInt8) (ds : List Nat),
+    (run cfg hdr.length (hdr ++ s) ds).final = .finished ∨
+    ∃ e, (run cfg hdr.length (hdr ++ s) ds).final = .err e
+
+/-- Totality for streams whose `PLAYER_NEW`/`INPUT_NEW` records stay below the number of table
+slots the machine can allocate (the excluding hypothesis of finding D18). -/
+theorem reader_total_partial (cfg : Cfg) (hdr s : List UInt8) (ds : List Nat)
+    (hc : CidsBelow cfg.memCids (parseAll cfg.hasEx (s.length + 1) s).1) :
+    (run cfg hdr.length (hdr ++ s) ds).final = .finished ∨
+    ∃ e, (run cfg hdr.length (hdr ++ s) ds).final = .err e := by
+  rcases reader_total cfg hdr s ds with h | h | h
+  · exact Or.inl h
+  · exact Or.inr h
+  · rw [run_eq_runWhole] at h
+    exact absurd h (interp_no_oom cfg _ _ _ hc)
+
+-- non-vacuity: the hypothesis is decidable and holds for an ordinary stream
+example : CidsBelow 1000 (parseAll true 15 [0x42, 2, 0, 0, 0x42, 3, 0, 0, 0x41, 0, 2, 1, 1, 0x40]).1 := by
+  decide +kernel
+
+/-- Finding D18 in the model: one `PLAYER_NEW` record with client id = number of allocatable
+slots ends in resource exhaustion, so `C17_full` does not hold. -/
+theorem reader_total_witness : ¬ C17_full := by
+  intro h
+  have hw : (run ⟨true, 1000⟩ ([] : List UInt8).length ([] ++ [0x42, 0xa8, 0x0f, 0, 0]) []).final = .oom := by
+    decide +kernel
+  rcases h ⟨true, 1000⟩ [] [0x42, 0xa8, 0x0f, 0, 0] [] with h | ⟨e, h⟩ <;> rw [hw] at h <;> simp at h
+
+/-! ### Tick structure -/
+
+/-- **Tick boundaries are properly nested start/end pairs with strictly increasing numbers**, every
+other item lies inside a tick, and a stream that ends with `FINISH` leaves no tick open — under
+every fragmentation. -/
+theorem tick_structure (cfg : Cfg) (hdr s : List UInt8) (ds : List Nat) :
+    ∃ st, tickRun ⟨none, -1⟩ (run cfg hdr.length (hdr ++ s) ds).items = some st ∧
+      ((run cfg hdr.length (hdr ++ s) ds).final = .finished → st.cur = none) := by
+  rw [run_eq_runWhole]
+  have hwf := (parseAll_wf cfg.hasEx (s.length + 1) s (by omega)).1
+  have hI : InvT Reader.empty ⟨none, -1⟩ := by simp [InvT, Reader.empty]
+  obtain ⟨st, h1, h2, _, _⟩ := interp_ticks cfg _ (parseAll cfg.hasEx (s.length + 1) s).2 Reader.empty _ hwf hI
+  exact ⟨st, h1, h2⟩
+
+/-- **The tick numbers equal the numbers the format documentation assigns**: the tick every
+reported item lies in is the tick `doc/teehistorian.md`'s pseudo-code computes for its message
+(all of them when the stream ends with `FINISH`, a prefix when reading stops at an error). -/
+theorem ticks_equal_doc (cfg : Cfg) (hdr s : List UInt8) (ds : List Nat) :
+    (itemTicks none (run cfg hdr.length (hdr ++ s) ds).items <+:
+      (docItemTicks 0 none ((messages cfg.hasEx s).map msgKind)).map some) ∧
+    ((run cfg hdr.length (hdr ++ s) ds).final = .finished →
+      itemTicks none (run cfg hdr.length (hdr ++ s) ds).items =
+        (docItemTicks 0 none ((messages cfg.hasEx s).map msgKind)).map some) := by
+  rw [run_eq_runWhole]
+  have hwf := (parseAll_wf cfg.hasEx (s.length + 1) s (by omega)).1
+  have hI : InvT Reader.empty ⟨none, -1⟩ := by simp [InvT, Reader.empty]
+  obtain ⟨st, _, _, h3, h4⟩ := interp_ticks cfg _ (parseAll cfg.hasEx (s.length + 1) s).2 Reader.empty _ hwf hI
+  simp only [messages, List.map_map]
+  exact ⟨h3, h4⟩
+
+/-! ### Running sums -/
+
+/-- **Player positions and inputs equal the running sums of the recorded differences**: every
+reported item is the one computed from exact integer sums, reduced modulo 2^32 only when
+reported (`expectedItems`); in particular `PlayerChange.old_pos`/`pos` and `Input.input`. -/
+theorem sums_equal_doc (cfg : Cfg) (hdr s : List UInt8) (ds : List Nat) :
+    ((reported (run cfg hdr.length (hdr ++ s) ds).items).map some <+:
+      expectedItems Sums.empty (messages cfg.hasEx s)) ∧
+    ((run cfg hdr.length (hdr ++ s) ds).final = .finished →
+      (reported (run cfg hdr.length (hdr ++ s) ds).items).map some =
+        expectedItems Sums.empty (messages cfg.hasEx s)) := by
+  rw [run_eq_runWhole]
+  have hwf := (parseAll_wf cfg.hasEx (s.length + 1) s (by omega)).1
+  have hrg := parseAll_range cfg.hasEx (s.length + 1) s
+  have hI : InvS Reader.empty Sums.empty := by
+    refine ⟨fun c => ?_, fun c => ?_⟩ <;> simp [Reader.empty, Sums.empty, tGet]
+  exact interp_sums cfg _ (parseAll cfg.hasEx (s.length + 1) s).2 Reader.empty Sums.empty
+    (fun r h => ⟨hwf r h, hrg r h⟩) hI
+
+-- non-vacuity / regression for the repaired defect D11: PLAYER_NEW 2; PLAYER_NEW 3; TICK_SKIP 0;
+-- PLAYER_DIFF 2; FINISH — the documentation puts the last record into tick 1
+example :
+    docItemTicks 0 none ((messages true [0x42, 2, 0, 0, 0x42, 3, 0, 0, 0x41, 0, 2, 1, 1, 0x40]).map msgKind) =
+      [0, 0, 1] := by decide +kernel
+example :
+    itemTicks none (runWhole ⟨true, 1000⟩ [0x42, 2, 0, 0, 0x42, 3, 0, 0, 0x41, 0, 2, 1, 1, 0x40]).items =
+      [some 0, some 0, some 1] := by decide +kernel
+-- wrapping: PLAYER_NEW 0 at (i32::MAX, i32::MIN); PLAYER_DIFF 0 (+1, -1)
+example :
+    reported (runWhole ⟨true, 1000⟩
+      [0x42, 0, 0xbf, 0xff, 0xff, 0xff, 0x0f, 0xff, 0xff, 0xff, 0xff, 0x0f, 0, 1, 0x40, 0x40]).items =
+      [.playerNew 0 2147483647 (-2147483648), .playerChange 0 (-2147483648) 2147483647 2147483647 (-2147483648)] := by
+  decide +kernel
 
 end Tw.Props.C17
